@@ -579,6 +579,10 @@ impl<'tcx> Cx<'tcx> {
             let j = match elem {
                 ProjectionElem::Deref => J::s("*"),
                 ProjectionElem::Field(f, fty) => {
+                    let parent: Option<String> = match pty.ty.kind() {
+                        ty::Adt(adt, _) => Some(self.dp(adt.did())),
+                        _ => None,
+                    };
                     let name: Option<Symbol> = match pty.ty.kind() {
                         ty::Adt(adt, _) => {
                             let vidx = pty.variant_index.unwrap_or(rustc_abi::FIRST_VARIANT);
@@ -590,7 +594,7 @@ impl<'tcx> Cx<'tcx> {
                         }
                         _ => None,
                     };
-                    obj! {"f": J::n(f.as_usize()), "n": J::opt(name.map(|n| J::s(n.as_str()))), "t": self.ty(fty)}
+                    obj! {"f": J::n(f.as_usize()), "n": J::opt(name.map(|n| J::s(n.as_str()))), "t": self.ty(fty), "a": J::opt(parent.map(J::s))}
                 }
                 ProjectionElem::Downcast(name, v) => {
                     obj! {"dc": J::n(v.as_usize()), "n": J::opt(name.map(|n| J::s(n.as_str())))}
